@@ -705,3 +705,48 @@ def r01_7(ctx, run, rule='R01.7'):
                           'the order of the phases is not decided here', f'{b.file}:{b.line}')
     else:
         run.undecided(rule, b.path, 'phase-order', f'not written as exactly two loops (keys, values): found {len(heads)}; the order of the phases is not decided here', f'{b.file}:{b.line}')
+
+
+# ------------------------------------------------------------------ R01.10 numbers reach the buffer only through the number codec
+
+def r01_10(ctx, run, rule='R01.10'):
+    """Must-pass-through: on every path of the encoder's value writer that returns a NUMBER entry, the bytes of the number were written
+    by Number::compact_encode applied to that number.  A path that writes a number's bytes itself (a shortcut for zero, a hand-made
+    tag byte) bypasses the codec whose tables R01.4 checks — `v == Number::default()` also holds for the float -0.0, which the codec
+    writes as a float to keep its sign bit."""
+    f = ctx.facts
+    cands = [b for p, b in sorted(f.bodies.items()) if p.startswith('ser::') and p.endswith('::encode_value') and b.kind != 'Promoted']
+    if not cands:
+        run.undecided(rule, 'ser::Encoder::encode_value', 'number-arm', 'function not found (anchor lost)')
+        return
+    b = cands[0]
+    ps, capped = explore(b)
+    loc = f'{b.file}:{b.line}'
+    n = 0
+    bad = None
+    unsure = None
+    for q in ps:
+        if q.end[0] != 'return' or q.ret is None:
+            continue
+        r = deref_all(q.ret)
+        if not any(is_call(s, 'JEntry::make_number_jentry') for s in subterms(r)):
+            continue
+        n += 1
+        enc = [e for e in q.calls() if called(e[1], 'Number::compact_encode')]
+        if enc:
+            continue
+        others = [e for e in q.calls() if e[5].get('callee', {}).get('resolved_local') if isinstance(e[5], dict)]
+        writes = [e for e in q.calls() if called(e[1], 'Vec::push', 'Vec::extend_from_slice', 'WriteBytesExt::write_u8', 'Write::write_all')]
+        if writes:
+            bad = (q, f'a NUMBER entry is returned on a path that writes the number\'s bytes itself ({canon(writes[0][1])}) and never calls Number::compact_encode')
+        else:
+            unsure = (q, 'a NUMBER entry is returned on a path that neither calls Number::compact_encode nor writes bytes itself (delegated to a helper this rule does not follow)')
+    if n == 0:
+        run.undecided(rule, b.path, 'number-arm', 'no path returning make_number_jentry(..) was recognised (anchor lost): how numbers reach the buffer is not decided', loc)
+    elif bad:
+        run.violation(rule, b.path, 'number-arm', bad[1] + ': the stored bytes no longer come from the number codec (for example Float64(-0.0) == Number::default() holds, and the '
+                      'one-byte zero form loses its sign bit)', loc)
+    elif unsure or capped:
+        run.undecided(rule, b.path, 'number-arm', (unsure[1] if unsure else 'path cap exceeded'), loc)
+    else:
+        run.proved(rule, b.path, 'number-arm', f'{n} path(s) return a NUMBER entry, each after Number::compact_encode wrote the bytes', loc)
